@@ -344,7 +344,15 @@ fn c05_position(rng: &mut Rng, i: u64) -> Pos {
         }
         8 => gen::g_promo(rng),
         9 | 10 => gen::g_underpromo(rng),
-        11 => gen::g_ep(rng),
+        11 => {
+            if rng.chance(1, 2) {
+                gen::g_ep(rng)
+            } else {
+                // the position before a double step that mates or stalemates although an en-passant capture
+                // of the pawn is pseudo-legal
+                gen::g_ep_terminal(rng).map(|x| x.0).unwrap_or_else(|| gen::g_ep(rng))
+            }
+        }
         12 => gen::g_castle(rng),
         _ => {
             // late game: long playout
@@ -776,6 +784,9 @@ fn c08_position(p_in: &Pos, rng: &mut Rng, st: &mut Stats, only_depth: Option<u8
         for t in c08_material_tags(p) {
             st.bump(&format!("mate_in_one_trials_{}", t));
         }
+        if m1.iter().any(|m| m.kind == crate::oracle::MvKind::Double && p.make(m).ep != crate::oracle::NO_EP) {
+            st.bump("mate_in_one_trials_where_a_mating_move_is_a_double_step_next_to_an_enemy_pawn");
+        }
         if m1.iter().any(|m| quiet_discovered_check(p, m)) {
             st.bump("mate_in_one_trials_where_a_mating_move_is_a_quiet_discovered_check");
         }
@@ -977,7 +988,7 @@ pub fn run_c08(ctx: &Ctx) -> i32 {
         level: "exploration",
         rule: "a case is (position, depth) met along random games, synthetic positions and king-hunt studies that satisfies (a) the side to move has a mate in one (depth 1..4, depth 4 only with few men): the answer of find_best_move on a fresh engine must be one of the mating moves; or (b) no mate in one, and the legal moves split into ones that allow the opponent a mate in one and ones that do not (depth 2..3): the answer must not be one that allows it. A tenth of the trials come from batteries (a slider aimed at the king through one piece of its own side: discovered checks and mates, with loose pieces around), a tenth from sparse material around a cornered king (3..6 men: minor pieces only, lone pawns about to promote, under-promotion mates). Sets are computed with the reference rules only; half of the positions are given with hostile move counters (halfmove clock up to 99). Distinct by (position, depth, kind); (a) is non-trivial when some legal move does not mate, (b) always",
         assumptions: vec!["the reference rules implementation is correct (perft self-test at every run)".into()],
-        required: if ctx.replay.is_some() { vec![] } else { vec!["mate_in_one_trials_depth_1", "mate_in_one_trials_depth_2", "mate_in_one_trials_depth_3", "mate_in_one_trials_depth_4", "avoidable_mate_trials_depth_2", "avoidable_mate_trials_depth_3", "positions_examined_with_hostile_move_counters", "mate_in_one_trials_minor_pieces_only", "avoidable_mate_trials_minor_pieces_only", "mate_in_one_trials_at_most_5_men", "mate_in_one_trials_one_minor_piece_each", "mate_in_one_trials_where_a_mating_move_is_a_quiet_discovered_check", "avoidable_mate_trials_where_a_threatened_mate_is_a_quiet_discovered_check"] },
+        required: if ctx.replay.is_some() { vec![] } else { vec!["mate_in_one_trials_depth_1", "mate_in_one_trials_depth_2", "mate_in_one_trials_depth_3", "mate_in_one_trials_depth_4", "avoidable_mate_trials_depth_2", "avoidable_mate_trials_depth_3", "positions_examined_with_hostile_move_counters", "mate_in_one_trials_minor_pieces_only", "avoidable_mate_trials_minor_pieces_only", "mate_in_one_trials_at_most_5_men", "mate_in_one_trials_one_minor_piece_each", "mate_in_one_trials_where_a_mating_move_is_a_quiet_discovered_check", "avoidable_mate_trials_where_a_threatened_mate_is_a_quiet_discovered_check", "mate_in_one_trials_where_a_mating_move_is_a_double_step_next_to_an_enemy_pawn"] },
         exhaustive: false,
         extra: vec![],
     };
@@ -1043,6 +1054,16 @@ pub fn run_c08(ctx: &Ctx) -> i32 {
                         if c08_position(p, &mut rng, &mut st, None, 10) {
                             trials += 1;
                             st.bump("src_battery_trials");
+                        }
+                    }
+                }
+                7 if rng.chance(1, 3) => {
+                    // checkmate (or stalemate) delivered by a double pawn step whose en-passant capture is
+                    // pseudo-legal but illegal: the position before the step, and positions around it
+                    if let Some((p, _)) = gen::g_ep_terminal(&mut rng) {
+                        if c08_position(&p, &mut rng, &mut st, None, 10) {
+                            trials += 1;
+                            st.bump("src_double_step_mate_with_refused_en_passant_trials");
                         }
                     }
                 }
